@@ -160,3 +160,146 @@ def matrix_chunk(chunk, tier, seed):
         if len(ctx.samples) < 1:
             ctx.samples.append(dict(settings=label, existence_patterns=len(patterns.patterns)))
     return ctx.result()
+
+
+# ============================================================================================ C10: encoders
+
+def encoder_settings(tier, seed):
+    rng = random.Random(5151)
+    sp = []
+    one = [([s], [t], ()) for s in TYPES for t in TYPES]
+    sp += rng.sample(one, 30 if tier == 'quick' else 120)
+    full = settings_space('quick', seed)
+    rest = [x for x in full if len(x[0]) + len(x[1]) > 2]
+    sp += rng.sample(rest, 45 if tier == 'quick' else 300)
+    return sp
+
+
+def factories():
+    from adsg_core.optimization.assign_enc import encoder_registry as R
+    from adsg_core.optimization.assign_enc.eager.imputation import FirstImputer, AutoModImputer, DeltaImputer, ClosestImputer
+    from adsg_core.optimization.assign_enc.lazy.imputation import LazyFirstImputer, LazyDeltaImputer, LazyClosestImputer
+    eager_imp = [('AutoMod', AutoModImputer), ('First', FirstImputer), ('Delta', DeltaImputer), ('Closest', ClosestImputer)]
+    lazy_imp = [('LazyDelta', LazyDeltaImputer), ('LazyFirst', LazyFirstImputer), ('LazyClosest', LazyClosestImputer)]
+    out = []
+    for i, f in enumerate(R.EAGER_ENCODERS):
+        for n, imp in eager_imp:
+            out.append((f'EAGER[{i}]/{n}', f, imp, 'eager'))
+    for i, f in enumerate(R.EAGER_ENUM_ENCODERS):
+        for n, imp in lazy_imp[:2]:
+            out.append((f'ENUM[{i}]/{n}', f, imp, 'lazy'))
+    for i, f in enumerate(R.LAZY_ENCODERS):
+        for n, imp in lazy_imp:
+            out.append((f'LAZY[{i}]/{n}', f, imp, 'lazy'))
+    for i, f in enumerate(R.PATTERN_ENCODERS):
+        out.append((f'PATTERN[{i}]/LazyDelta', f, LazyDeltaImputer, 'lazy'))
+    return out
+
+
+def encoder_chunk(chunk, tier, seed):
+    from adsg_core.optimization.assign_enc.matrix import MatrixGenSettings, NodeExistencePatterns
+    from adsg_core.optimization.assign_enc.assignment_manager import AssignmentManager, LazyAssignmentManager
+    from adsg_core.optimization.assign_enc.patterns.encoder import InvalidPatternEncoder
+    from adsg_core.optimization.assign_enc.encoding import Encoder
+    ctx = Ctx(None)
+    facs = factories()
+    for src, tgt, ex in chunk:
+        label = f'src={src} tgt={tgt} excluded={list(ex)}'
+        patterns = NodeExistencePatterns.get_all_combinations([True] * len(src), [True] * len(tgt))
+
+        def mk_settings():
+            return MatrixGenSettings([mk_node(s) for s in src], [mk_node(t) for t in tgt],
+                                     excluded=list(ex) or None, existence=patterns)
+        valid = {}
+        for existence in patterns.patterns:
+            src_ex = [existence.has_src(i) for i in range(len(src))]
+            tgt_ex = [existence.has_tgt(j) for j in range(len(tgt))]
+            valid[existence] = set(brute(src, tgt, set(ex), src_ex, tgt_ex)[0])
+        if sum(len(v) for v in valid.values()) == 0:
+            continue
+        for fname, fac, imp, kind in facs:
+            wit0 = [fname, label, 'setup']
+            try:
+                enc = fac(imp())
+                from adsg_core.optimization.assign_enc.lazy_encoding import LazyEncoder
+                mgr = (LazyAssignmentManager if isinstance(enc, LazyEncoder) else AssignmentManager)(mk_settings(), enc)
+                dvs = list(mgr.design_vars or [])
+            except InvalidPatternEncoder:
+                continue   # a pattern encoder that rejects the settings is skipped by the selection
+            except Exception as e:  # noqa
+                ctx.check('C10.set-settings-total', False, wit0, f'{type(e).__name__}: {e}', (fname, label))
+                continue
+            n_space = 1
+            for dv in dvs:
+                n_space *= dv.n_opts + 2
+            if n_space > 4000:
+                continue
+            used = [set() for _ in dvs]
+            try:
+                all_dv = mgr.get_all_design_vectors()
+            except Exception as e:  # noqa
+                all_dv = None
+                ctx.check('C10.all-design-vectors-total', False, wit0, f'{type(e).__name__}: {e}', (fname, label))
+            for existence in patterns.patterns:
+                if not valid[existence]:
+                    continue
+                src_ex = [existence.has_src(i) for i in range(len(src))]
+                tgt_ex = [existence.has_tgt(j) for j in range(len(tgt))]
+                wclass = fname
+                nt = (fname, label, str(src_ex), str(tgt_ex))
+                reached = set()
+                vec2mat = {}
+                corrected = set()
+                vectors = [list(v) for v in itertools.product(*[range(-1, dv.n_opts + 1) for dv in dvs])]
+                vectors.append([0] * (len(dvs) + 2))
+                for v in vectors:
+                    wit = [wclass, label, [src_ex, tgt_ex], v]
+                    try:
+                        xi, act, M = mgr.get_matrix(list(v), existence=existence)
+                    except Exception as e:  # noqa
+                        ctx.check('C10.decode-total', False, wit, f'{type(e).__name__}: {e}', nt)
+                        continue
+                    xi = [int(a) for a in xi]
+                    act = [bool(a) for a in act]
+                    Mt = tuple(map(tuple, np.array(M).tolist()))
+                    ctx.check('C10.decoded-matrix-valid', Mt in valid[existence], wit,
+                              f'decoded {Mt} is not a valid matrix of the pattern', nt)
+                    n = len(dvs)
+                    ctx.check('C10.corrected-in-range', len(xi) >= n and all(0 <= xi[k] < dvs[k].n_opts for k in range(n)),
+                              wit, f'corrected {xi} for n_opts {[d.n_opts for d in dvs]}', nt)
+                    ctx.check('C10.extra-entries-inactive', all(not a for a in act[n:]) and all(x == 0 for x in xi[n:]), wit,
+                              f'entries beyond the declared variables: {xi[n:]} active {act[n:]}', nt)
+                    key = tuple(xi[:n])
+                    try:
+                        xi2, act2, M2 = mgr.get_matrix(list(xi[:n]), existence=existence)
+                        ctx.check('C10.fixed-point', [int(a) for a in xi2][:n] == xi[:n] and
+                                  tuple(map(tuple, np.array(M2).tolist())) == Mt and [bool(a) for a in act2][:n] == act[:n], wit,
+                                  f'decode(corrected {xi[:n]}, active {act[:n]}) gives {[int(a) for a in xi2]} active '
+                                  f'{[bool(a) for a in act2]} matrix equal: {tuple(map(tuple, np.array(M2).tolist())) == Mt}', nt)
+                    except Exception as e:  # noqa
+                        ctx.check('C10.fixed-point', False, wit, f're-decode raised {type(e).__name__}: {e}', nt)
+                    if key in vec2mat:
+                        ctx.check('C10.equal-vectors-equal-matrices', vec2mat[key] == Mt, wit,
+                                  f'corrected vector {key} denotes {vec2mat[key]} and {Mt}', nt)
+                    vec2mat[key] = Mt
+                    reached.add(Mt)
+                    corrected.add(tuple(-1 if not act[k] else xi[k] for k in range(n)))
+                    for k in range(n):
+                        if act[k]:
+                            used[k].add(xi[k])
+                ctx.check('C10.onto', reached == valid[existence], [wclass, label, [src_ex, tgt_ex], 'all-vectors'],
+                          f'{len(reached)} matrices reached, {len(valid[existence])} valid; unreachable '
+                          f'{list(valid[existence] - reached)[:2]}', nt)
+                if all_dv is not None and existence in all_dv:
+                    listed = set(tuple(int(a) for a in row[:len(dvs)]) for row in np.array(all_dv[existence]).tolist())
+                    ctx.check('C10.listed-design-vectors-are-the-corrected-vectors', listed == corrected,
+                              [wclass, label, [src_ex, tgt_ex], 'all-design-vectors'],
+                              f'listed {sorted(listed)[:5]} ({len(listed)}), corrected {sorted(corrected)[:5]} ({len(corrected)})', nt)
+            for k, u in enumerate(used):
+                if max(len(v) for v in valid.values()) < 2:
+                    break   # settings with at most one connection set per pattern: no variable is needed (C12's clause)
+                ctx.check('C10.every-variable-has-two-used-values', len(u) >= 2, [fname, label, 'used-values', k],
+                          f'variable {k} ({dvs[k].n_opts} options) only takes {sorted(u)}', (fname, label, 'used', k))
+        if len(ctx.samples) < 1:
+            ctx.samples.append(dict(settings=label, encoders=len(facs)))
+    return ctx.result()
